@@ -8,26 +8,31 @@ P2 == <<1, 2, 4, 8, 16, 32, 64, 128, 256, 512, 1024, 2048, 4096, 8192, 16384, 32
         524288, 1048576, 2097152, 4194304, 8388608, 16777216>>
 Pow2(n) == P2[n + 1]                       \* n in 0..24
 
-Zeros(n) == [i \in 1..n |-> 0]
-Ones(n)  == [i \in 1..n |-> 1]
+(* TLC keeps [i \in 1..n |-> e] as a lazy function and re-evaluates e (and Len) at every access; SubSeq builds  *)
+(* the tuple once.  Every operator below returns a concrete tuple.                                          *)
+Force(f, n) == SubSeq(f, 1, n)
+Zeros(n) == Force([i \in 1..n |-> 0], n)
+Ones(n)  == Force([i \in 1..n |-> 1], n)
 
 ByteBit(b, i) == (b \div P2[i + 1]) % 2    \* bit i (0..7) of byte b
 
 (* bytes (little-endian, first byte first) -> bits *)
-BitsOfBytes(bs) == [i \in 1..(8 * Len(bs)) |-> ByteBit(bs[((i - 1) \div 8) + 1], (i - 1) % 8)]
+(* SubSeq forces TLC to build the tuple once instead of re-evaluating the lazy function at every access *)
+BitsOfBytes(bs) == Force([i \in 1..(8 * Len(bs)) |-> ByteBit(bs[((i - 1) \div 8) + 1], (i - 1) % 8)], 8 * Len(bs))
 
 (* bits -> bytes; a trailing partial byte is zero-filled *)
-BitAt(b, i) == IF i <= Len(b) THEN b[i] ELSE 0
 BytesOfBits(b) ==
-    [j \in 1..((Len(b) + 7) \div 8) |->
-        BitAt(b, 8 * j - 7) + 2 * BitAt(b, 8 * j - 6) + 4 * BitAt(b, 8 * j - 5) + 8 * BitAt(b, 8 * j - 4)
-        + 16 * BitAt(b, 8 * j - 3) + 32 * BitAt(b, 8 * j - 2) + 64 * BitAt(b, 8 * j - 1) + 128 * BitAt(b, 8 * j)]
+    LET n == Len(b)
+        At(i) == IF i <= n THEN b[i] ELSE 0
+    IN Force([j \in 1..((n + 7) \div 8) |->
+                At(8 * j - 7) + 2 * At(8 * j - 6) + 4 * At(8 * j - 5) + 8 * At(8 * j - 4)
+                + 16 * At(8 * j - 3) + 32 * At(8 * j - 2) + 64 * At(8 * j - 1) + 128 * At(8 * j)], (n + 7) \div 8)
 
 (* n bits starting after `off` bits; positions beyond the end read as zero (implicit zero extension)     *)
-Slice(b, off, n) == [i \in 1..n |-> IF off + i <= Len(b) THEN b[off + i] ELSE 0]
+Slice(b, off, n) == LET m == Len(b) IN Force([i \in 1..n |-> IF off + i <= m THEN b[off + i] ELSE 0], n)
 
-Take(b, n) == [i \in 1..n |-> IF i <= Len(b) THEN b[i] ELSE 0]          \* low n bits, zero-extended
-SignExtTo(b, n) == [i \in 1..n |-> IF i <= Len(b) THEN b[i] ELSE b[Len(b)]]   \* Len(b) >= 1
+Take(b, n) == LET m == Len(b) IN Force([i \in 1..n |-> IF i <= m THEN b[i] ELSE 0], n)          \* low n bits, zero-extended
+SignExtTo(b, n) == LET m == Len(b) IN Force([i \in 1..n |-> IF i <= m THEN b[i] ELSE b[m]], n)   \* Len(b) >= 1
 
 AllZero(b, from, to) == \A i \in from..to : b[i] = 0
 AllEq(b, from, to, x) == \A i \in from..to : b[i] = x
@@ -38,7 +43,7 @@ UVal(b, i) == IF i > Len(b) \/ i > 24 THEN 0 ELSE b[i] * P2[i] + UVal(b, i + 1)
 U(b) == IF \E i \in 25..Len(b) : b[i] = 1 THEN 16777216 ELSE UVal(b, 1)
 
 (* n-bit little-endian representation of a natural < 2^24 *)
-OfNat(x, n) == [i \in 1..n |-> IF i <= 24 THEN (x \div P2[i]) % 2 ELSE 0]
+OfNat(x, n) == Force([i \in 1..n |-> IF i <= 24 THEN (x \div P2[i]) % 2 ELSE 0], n)
 
 (* increment of a bit string (same length; wraps) *)
 RECURSIVE IncFrom(_, _)
@@ -47,5 +52,5 @@ IncFrom(b, i) == IF i > Len(b) THEN b
                  ELSE IncFrom([b EXCEPT ![i] = 0], i + 1)
 Inc(b) == IncFrom(b, 1)
 
-Rev(b) == [i \in 1..Len(b) |-> b[Len(b) + 1 - i]]
+Rev(b) == LET m == Len(b) IN Force([i \in 1..m |-> b[m + 1 - i]], m)
 =============================================================================
